@@ -25,7 +25,7 @@ PYMOD = {
 }
 
 
-FLOAT_SENSITIVE = {"py_common.cprNL"}
+FLOAT_SENSITIVE = {"py_common.cprNL", "c_common.cprNL"}
 
 
 def pymod(ns):
@@ -112,6 +112,21 @@ class GenTie:
             path, pick, args = args[0], "class", args[1:]
         elif path == "h:props.C14.klass":
             path, pick, args = args[0], "class", [args[2]] + list(args[1])
+        if path in ("h:props.C15.callm_mapped", "h:props.C15.callm") and args and args[0] == "cur":
+            # the transliterated c_common.pyx of the working tree against its own translation to Lean
+            name = "c_common." + args[1]
+            sig = self.sigs.get(name)
+            rest = list(args[2:])
+            if sig is None or len(rest) > len(sig["args"]):
+                return None
+            for k in range(len(rest), len(sig["args"])):
+                if sig["defaults"][k] in ("?", "<required>"):
+                    return None
+                rest.append(sig["defaults"][k])
+            enc = [enc_arg(a) for a in rest]
+            if any(e is None for e in enc):
+                return None
+            return name, enc, (("sent", args[1]) if path.endswith("_mapped") else None)
         if path == "h:props.C14.tell_quiet":
             path = "pyModeS.tell"
         elif path.startswith("h:"):
@@ -188,6 +203,10 @@ class GenTie:
             g = "''"
         if pick == "class":
             g = g if g in ("RE", "EXC") else "val"
+        elif isinstance(pick, tuple) and pick[0] == "sent":
+            from props import C15
+            if g.lstrip("-").isdigit() and int(g) in C15.SENT.get(pick[1], {}):
+                g = "None"
         elif isinstance(pick, tuple) and pick[0] == "dict":
             if g.startswith("{") and g.endswith("}"):
                 kv = dict(x.split("=", 1) for x in g[1:-1].split(",") if "=" in x)
